@@ -250,6 +250,14 @@ def gen_program(rng, opts=None):
                         a, b = r.choice(domains)["name"], r.choice(domains)["name"]
                         if a != b:
                             m["wrap"].append(["rename", {a: b} if r.random() < 0.6 else {a: b, b: a}])
+                    elif len(domains) >= 2 and r.random() < 0.3:
+                        # one inserter controlling several domains at once (a dict with more than one entry)
+                        pairs = []
+                        for d in r.sample(domains, r.randint(2, len(domains))):
+                            sigs.append({"name": "ctl", "width": 1, "signed": False, "init": 0, "reset_less": False, "role": "ctl"})
+                            ctl.append(len(sigs) - 1)
+                            pairs.append([d["name"], len(sigs) - 1])
+                        m["wrap"].append([kind + "_multi", pairs])
                     else:
                         sigs.append({"name": "ctl", "width": 1, "signed": False, "init": 0, "reset_less": False, "role": "ctl"})
                         ctl.append(len(sigs) - 1)
@@ -686,6 +694,10 @@ def build(prog):
                 e = ResetInserter({w[1]: sigs[w[2]]})(e)
             elif w[0] == "enable":
                 e = EnableInserter({w[1]: sigs[w[2]]})(e)
+            elif w[0] == "reset_multi":
+                e = ResetInserter({d: sigs[c] for d, c in w[1]})(e)
+            elif w[0] == "enable_multi":
+                e = EnableInserter({d: sigs[c] for d, c in w[1]})(e)
             else:
                 e = DomainRenamer(dict(w[1]))(e)
         return e
